@@ -444,6 +444,12 @@ def run(ctx):
     fam = ctx.facts("family")
     c19.rule_work(fam, ctx, only={"C08.R1"})
     c19.rule_work(facts, ctx, only={"C08.R1"})
+    if ctx.tier == "thorough" and ctx.override is None:
+        sfx = ctx.suffix
+        ctx.suffix = "@big"
+        c19.rule_work(ctx.facts("family_big"), ctx, only={"C08.R1"})
+        ctx.suffix = sfx
+        ctx.explain("THOROUGH: additionally the big generated family (arities up to 5 x 5, field-order variants).")
     rule_r2(facts, ctx)
     rule_r3(facts, ctx)
     rule_r5(facts, ctx)
